@@ -257,5 +257,34 @@ termination_by buf.size - i
 
 def utf8Valid (buf : Buf) : Bool := utf8FirstInvalid buf 0 == buf.size
 
+/-- length of the *maximal subpart* of an ill-formed sequence at `i` (Unicode ch. 3, "U+FFFD
+    substitution of maximal subparts"; what `String::from_utf8_lossy` replaces by one U+FFFD) -/
+def badSubpart (buf : Buf) (i : Nat) : Nat :=
+  match buf[i]? with
+  | none => 1
+  | some b0 =>
+    let cont (j : Nat) : Bool := match buf[j]? with | some b => isCont b | none => false
+    let inR (j : Nat) (lo hi : UInt8) : Bool := match buf[j]? with | some b => lo ≤ b && b ≤ hi | none => false
+    if 0xE0 ≤ b0 && b0 ≤ 0xEF then
+      let lo : UInt8 := if b0 == 0xE0 then 0xA0 else 0x80
+      let hi : UInt8 := if b0 == 0xED then 0x9F else 0xBF
+      if inR (i+1) lo hi then 2 else 1
+    else if 0xF0 ≤ b0 && b0 ≤ 0xF4 then
+      let lo : UInt8 := if b0 == 0xF0 then 0x90 else 0x80
+      let hi : UInt8 := if b0 == 0xF4 then 0x8F else 0xBF
+      if inR (i+1) lo hi then (if cont (i+2) then 3 else 2) else 1
+    else 1
+
+/-- `String::from_utf8_lossy`: well-formed sequences are kept, every maximal ill-formed subpart
+    becomes U+FFFD (`EF BF BD`) -/
+def utf8Lossy (buf : Buf) (i : Nat) : List UInt8 :=
+  if h : i < buf.size then
+    match utf8Seq buf i with
+    | some n => if 0 < n then (buf.toList.drop i).take n ++ utf8Lossy buf (i+n) else []
+    | none => [0xEF, 0xBF, 0xBD] ++ utf8Lossy buf (i + max 1 (badSubpart buf i))
+  else []
+termination_by buf.size - i
+decreasing_by all_goals omega
+
 end Spec
 end Sonic
